@@ -514,3 +514,20 @@ package impl
 //@   requires [registered-callbacks-nonnil] dyntype_is(fn, datatransfer.ReadyFunc) ==> fn.(datatransfer.ReadyFunc) != nil
 //@   ensures [delivers-outcome] result == nil ==> seq(dyn.ReadyFunc) && all(dyn.ReadyFunc, $1 == evt)
 //@   ensures [at-most-once] calls(dyn.ReadyFunc) <= 1 && only(dyn.ReadyFunc)
+
+// ---------------------------------------------------------------------------------------------
+// event fan-out (C17) and transfer ids (C18)
+
+//@ func (*impl.manager).notifier {C17}
+//@   ensures [forward-once] seq(PubSub.Publish) && all(PubSub.Publish, $0 == m.pubSub && $1.(impl.internalEvent).evt == evt && $1.(impl.internalEvent).state == chst)
+//@ func impl.dispatcher {C17}
+//@   requires [registered-callbacks-nonnil] dyntype_is(subscriberFn, datatransfer.Subscriber) ==> subscriberFn.(datatransfer.Subscriber) != nil
+//@   ensures [forward-once] result == nil ==> seq(dyn.Subscriber) && all(dyn.Subscriber, $1 == evt.(impl.internalEvent).evt && $2 == evt.(impl.internalEvent).state)
+//@   ensures [at-most-once] calls(dyn.Subscriber) <= 1 && only(dyn.Subscriber)
+//@ func (*impl.manager).SubscribeToEvents {C17}
+//@   ensures [registers] seq(PubSub.Subscribe) && all(PubSub.Subscribe, $0 == m.pubSub)
+
+//@ type timeCounter
+//@   atomic counter -- only ever the operand of sync/atomic
+//@ func impl.newTimeCounter {C18}
+//@   ensures [starts-at-clock] result != nil && only(Now)
